@@ -116,14 +116,21 @@ def random_jobs(pid, n, seed, length):
     if pid == "C07":                           # a CSV file well beyond 64 KiB full of quoted multi-line values; lengths and getters from storage
         for i in range(2):
             g = gen.Gen(seed * 911 + i, ntk=NTK, nfk=NFK, focus=f["weights"], handles=0.0, regex=False)
-            n0 = 1500 + 100 * i
+            n0 = 2600 + 450 * i
             pre = [g.point(t=min(gen.NT - 1, k * gen.NT // n0)) for k in range(n0)]
-            for p in pre:
-                p["tg"][0] = [2, 3, 4][p["t"] % 3]          # (csv-hostile strings with CR/LF inside quotes)
+            for k, p in enumerate(pre):                  # every cell that can be is quoted: line breaks, delimiters, quotes (csv-hostile theme)
+                p["tg"] = [1 + (k + j) % 4 for j in range(3)]
+                p["fd"] = [(k + j) % 6 for j in range(3)]
+                p["m"] = 1 + k % 3
             ops = [{"op": "len", "m": NONE_}, {"op": "len", "m": 1, "via": "handle"},
                    {"op": "insert", "p": g.point(gen.NT - 1), "m": NONE_, "compact": 0}, {"op": "len", "m": NONE_},
-                   {"op": "get_measurements"}, {"op": "iter", "m": 2, "via": "handle"}]
+                   {"op": "get_measurements"}]
             jobs.append(("huge%d" % i, "csv", i % 2, ops, g.battery(1), NTK, NFK, {"theme": "csv-hostile", "prefill": True, "prefill_points": pre}))
+    if pid in ("C01", "C07", "C10"):           # the same read twice through one handle with foreign writes in between (gen.reread_scenario)
+        for i in range(max(40, n // 10)):
+            g = gen.Gen(seed * 3331 + i * 19 + int(pid[1:]), ntk=NTK, nfk=NFK, focus=f["weights"], handles=0.0)
+            kind, ai = traces.CONFIGS[i % 4]
+            jobs.append(("rr%d" % i, kind, ai, g.reread_scenario(), g.battery(2), NTK, NFK))
     if pid in ("C03", "C11"):                  # one Point object stored several times, then failing updates (gen.alias_scenario)
         for i in range(max(24, n // 20)):
             g = gen.Gen(seed * 9973 + i * 17 + int(pid[1:]), ntk=NTK, nfk=NFK, focus=f["weights"], handles=0.0)
@@ -327,6 +334,7 @@ def run(pid, level="model_checking"):
             own_all.add(jid)
             jobs.append((jid, "csv", i % 2, ops, [], NTK, NFK, {"nostore": True, "csv": {"flush_on_insert": False}}))
     recorded = traces.record_all(jobs)
+    recorded = recorded + traces.prefill_traces(recorded)
     verdicts, js = traces.judge(recorded)
     byid = {t["id"]: t for t in recorded}
     job_battery = {j[0]: j[4] for j in jobs}
